@@ -131,6 +131,28 @@ theorem count_update (c0 c1 : UInt32) (L len : Nat) (h0 : c0.toNat = 8 * L % 2 ^
     omega
 
 
+/-- the index and count expressions of the model, driven by the generated shift amounts and mask,
+    are the published ones: byte index = (count >> 3) & 0x3F, low word += len << 3 with carry,
+    high word += len >> 29 -/
+theorem bufIndex_eq (c0 : UInt32) : bufIndex c0 = ((c0 >>> 3) &&& 0x3F).toNat := rfl
+
+theorem countUpdate_eq (c0 c1 : UInt32) (len : Nat) :
+    countUpdate c0 c1 len =
+      (c0 + (UInt32.ofNat len <<< 3),
+       (if c0 + (UInt32.ofNat len <<< 3) < UInt32.ofNat len <<< 3 then c1 + 1 else c1)
+         + (UInt32.ofNat len >>> 29)) := rfl
+
+/-- the model's bit count is `8 * (bytes fed)` modulo 2^64 after every update -/
+theorem countUpdate_spec (c0 c1 : UInt32) (L len : Nat) (h0 : c0.toNat = 8 * L % 2 ^ 32)
+    (h1 : c1.toNat = 8 * L / 2 ^ 32 % 2 ^ 32) (hl : len < 2 ^ 32) :
+    (countUpdate c0 c1 len).1.toNat + 2 ^ 32 * (countUpdate c0 c1 len).2.toNat
+      = 8 * (L + len) % 2 ^ 64 := by
+  have h := count_update c0 c1 L len h0 h1 hl
+  rw [countUpdate_eq]
+  simp only
+  rw [h.1, h.2]
+  omega
+
 /-! ### MD5Update -/
 
 theorem rdN_take {input : Bytes} {len i n : Nat} (hlen : len ≤ input.length) (h : i + n ≤ len) :
@@ -194,7 +216,7 @@ theorem MD5Update_short {ctx : MD5Ctx} {m input : Bytes} {len : Nat} (ha : Absor
         + (UInt32.ofNat len >>> 29),
       ctx.buffer.take (m.length % 64) ++ input.take len ++ ctx.buffer.drop (m.length % 64 + len)⟩ := by
     unfold MD5Update
-    simp only [hidx, if_neg hs, hr, hmc, bind, Except.bind, pure, Except.pure]
+    simp only [bufIndex_eq, countUpdate_eq, hidx, if_neg hs, hr, hmc, bind, Except.bind, pure, Except.pure]
   refine ⟨_, hupd, ?_⟩
   · clear hupd
     generalize input.take len = X at hX hr hmc ⊢
@@ -267,7 +289,7 @@ theorem MD5Update_long {ctx : MD5Ctx} {m input : Bytes} {len : Nat} (ha : Absorb
       (input.take len).drop iF ++
         (m.drop (m.length - m.length % 64) ++ (input.take len).take (64 - m.length % 64)).drop (len - iF)⟩ := by
     unfold MD5Update
-    simp only [hidx, if_pos hs, hr0, hmc0, MD5Transform_eq, hloop, hrest, hmc1, bind, Except.bind, pure, Except.pure]
+    simp only [bufIndex_eq, countUpdate_eq, hidx, if_pos hs, hr0, hmc0, MD5Transform_eq, hloop, hrest, hmc1, bind, Except.bind, pure, Except.pure]
   refine ⟨_, hupd, ?_⟩
   clear hupd hmc1 hrest hloop hmc0 hr0
   generalize input.take len = X at hX hpl hB0 hrl ⊢
@@ -353,7 +375,7 @@ theorem MD5Final_eq {ctx : MD5Ctx} {m : Bytes} (ha : Absorbed ctx m) : MD5Final 
     simp [List.append_assoc]
   rw [hpad] at a2
   unfold MD5Final MD5Pad
-  simp only [hidx, hpl, h1, h2, bind, Except.bind, pure, Except.pure, Spec.md5]
+  simp only [bufIndex_eq, hidx, hpl, h1, h2, bind, Except.bind, pure, Except.pure, Spec.md5]
   rw [a2.state]
 
 
